@@ -5,6 +5,13 @@
 //   '#' lines: statistics / the addresses of the universe nodes (the allocator's choice, fed to the model by vlib/c07.py)
 // Everything is observed through the ipr:: interface; -DC07_WHITEBOX (needs -fno-access-control) adds the `shape` op,
 // which dumps the private red-black trees and `Overload::masters`.
+// `lexicon <k> [<n>]` makes a universe of n names (default 8; N0..N5 identifiers, N6 an operator, N7 a conversion; from N8 on
+// identifiers -- whose spelling order is unrelated to their index and to their creation order --, operators, conversions,
+// constructor / destructor names, template-ids and suffixes in turn), created in an order shuffled by k, so that the address
+// order of the name nodes contradicts every other order on them.
+// REFERENCES ARE COLLECTED FIRST AND READ AFTERWARDS: a full observation first asks every declaration of the scope for its
+// master and its decl-set, every name for its overload set, every overload set for its selections, keeps all the references
+// alive together, and only then reads through them (an answer that is a view shared between declarations shows up).
 #include <ipr/impl>
 #include <cstdint>
 #include <iostream>
@@ -110,12 +117,12 @@ namespace {
       }
    }
 
-   // -- the universe: eight names of four different name categories, sixteen types of three sorts.
-   void make_universe(unsigned k)
+   // -- the universe: n names of every name category, sixteen types of three sorts.
+   void make_universe(unsigned k, std::size_t nn)
    {
       auto& L = *cx.lex;
       cx.u = { };
-      cx.u.names.assign(8, nullptr);
+      cx.u.names.assign(nn, nullptr);
       std::vector<std::pair<std::string, const ipr::Type*>> ty(16);
       const char8_t* ids[] = { u8"n0", u8"n1", u8"n2", u8"n3", u8"n4", u8"n5" };
       auto prod = [&](std::initializer_list<const ipr::Type*> ts) -> const ipr::Product& {
@@ -151,21 +158,49 @@ namespace {
          default: return L.get_forall(prod({ &L.int_type() }), F(0));
          }
       };
+      // names from N8 on: every category of name in turn
+      auto spelled = [&](std::size_t i, const char* prefix) {
+         // spelling order unrelated to the index: the leading letter runs through a permutation of the alphabet
+         std::string w = prefix;
+         w += char('a' + (i * 7 + 3) % 26);
+         w += std::to_string(i * 37 % 101);
+         return std::u8string(w.begin(), w.end());
+      };
+      auto extra = [&](std::size_t i) -> const ipr::Name& {
+         static const char8_t* const opnames[] = { u8"-", u8"*", u8"()", u8"[]", u8"==", u8"<", u8"new", u8"->", u8"<=>", u8"/" };
+         const std::size_t j = i - 8;
+         switch (j % 8) {
+         case 1: return L.get_operator(opnames[(j / 8) % 10]);
+         case 3: return L.get_conversion(P(int(1 + (j / 8) % 7)));
+         case 5: return L.get_ctor_name(P(int((j / 8) % 8)));
+         case 6: return L.get_dtor_name(P(int((j / 8) % 8)));
+         case 7:
+            if ((j / 8) % 2 == 0) return L.get_template_id(*L.make_id_expr(L.get_identifier(spelled(i, "tm"))), *L.make_expr_list());
+            return L.get_suffix(L.get_identifier(spelled(i, "sfx")));
+         default: return L.get_identifier(spelled(i, ""));
+         }
+      };
       // creation order shuffled by k (a different allocation order gives different address orders, hence tree shapes)
-      std::vector<int> order(24);
-      for (int i = 0; i < 24; ++i) order[i] = i;
+      const int total = int(nn) + 16;
+      std::vector<int> order(total);
+      for (int i = 0; i < total; ++i) order[i] = i;
       std::uint64_t x = 0x9E3779B97F4A7C15ull ^ (std::uint64_t(k) * 0xD1B54A32D192ED03ull + 1);
-      for (int i = 23; i > 0; --i) {
+      for (int i = total - 1; i > 0; --i) {
          x ^= x << 13; x ^= x >> 7; x ^= x << 17;
          std::swap(order[i], order[int(x % std::uint64_t(i + 1))]);
       }
+      const int first_type = int(nn);
       for (int o : order) {
-         if (o < 6) cx.u.names[o] = &L.get_identifier(ids[o]);
+         if (o >= first_type) {
+            const int t = o - first_type;
+            if (t < 8) ty[t] = { "P" + std::to_string(t), &P(t) };
+            else if (t < 12) ty[t] = { "F" + std::to_string(t - 8), &F(t - 8) };
+            else ty[t] = { "A" + std::to_string(t - 12), &A(t - 12) };
+         }
+         else if (o < 6) cx.u.names[o] = &L.get_identifier(ids[o]);
          else if (o == 6) cx.u.names[6] = &L.get_operator(u8"+");
          else if (o == 7) cx.u.names[7] = &L.get_conversion(L.int_type());
-         else if (o < 16) ty[o - 8] = { "P" + std::to_string(o - 8), &P(o - 8) };
-         else if (o < 20) ty[o - 8] = { "F" + std::to_string(o - 16), &F(o - 16) };
-         else ty[o - 8] = { "A" + std::to_string(o - 20), &A(o - 20) };
+         else cx.u.names[o] = &extra(std::size_t(o));
       }
       cx.u.types = ty;
       for (std::size_t i = 0; i < cx.u.names.size(); ++i)
@@ -181,14 +216,15 @@ namespace {
       cx.hdecls.clear(); cx.hid.clear();
    }
 
-   std::string op_lexicon(unsigned k)
+   std::string op_lexicon(unsigned k, std::size_t nn = 8)
    {
+      if (nn < 8 or nn > 64) return "bad-op";        // beyond 64 the operator / conversion names would repeat
       reset_scopes();
       cx.unit.reset();
       cx.lex.reset();
       cx.lex = std::make_unique<impl::Lexicon>();
       cx.unit = std::make_unique<impl::Translation_unit>(*cx.lex);
-      make_universe(k);
+      make_universe(k, nn);
       return "ok";
    }
 
@@ -215,17 +251,6 @@ namespace {
       return join(out, ',') + (ok ? "" : "!iter");
    }
 
-   std::string decl_set_str(const std::map<const ipr::Decl*, int>& ids, const char* prefix, const ipr::Decl& d)
-   {
-      return guarded([&] {
-         bool ok = true;
-         auto v = read_seq(d.decl_set(), ok);
-         std::vector<std::string> out;
-         for (auto x : v) out.push_back(dtok(ids, prefix, *x));
-         return join(out, '+') + (ok ? "" : "!iter");
-      });
-   }
-
    std::string position_str(const ipr::Decl& d)
    {
       return guarded([&]() -> std::string {
@@ -236,17 +261,56 @@ namespace {
       });
    }
 
+   // What one declaration answered for master() and decl_set(): the REFERENCES, kept while the others are asked.
+   struct Held {
+      const ipr::Decl* master = nullptr;
+      const ipr::Sequence<ipr::Decl>* set = nullptr;
+      std::string master_err, set_err;                 // "!L" / "!X" when the accessor threw
+   };
+
+   Held hold(const ipr::Decl& d)
+   {
+      Held h;
+      h.master_err = guarded([&] { h.master = &d.master(); return std::string(); });
+      h.set_err = guarded([&] { h.set = &d.decl_set(); return std::string(); });
+      return h;
+   }
+
+   std::string held_set_str(const std::map<const ipr::Decl*, int>& ids, const char* prefix, const Held& h)
+   {
+      if (h.set == nullptr) return h.set_err;
+      return guarded([&] {
+         bool ok = true;
+         auto v = read_seq(*h.set, ok);
+         std::vector<std::string> out;
+         for (auto x : v) out.push_back(dtok(ids, prefix, *x));
+         return join(out, '+') + (ok ? "" : "!iter");
+      });
+   }
+
    // d<k>:<name>:<type>:<kind>:m=<master>:s=<decl-set>     (homogeneous: h<k>:<name>:<type>:<kind>:pos=<p>:m=..:s=..)
-   std::string decl_str(const std::map<const ipr::Decl*, int>& ids, const char* prefix, const ipr::Decl& d, bool with_pos)
+   std::string decl_str(const std::map<const ipr::Decl*, int>& ids, const char* prefix, const ipr::Decl& d, bool with_pos, const Held& h)
    {
       std::string s = dtok(ids, prefix, d);
       s += ':' + guarded([&] { return ntok(d.name()); });
       s += ':' + guarded([&] { return ttok(d.type()); });
       s += ':'; s += kind_of(d);
       if (with_pos) s += ":pos=" + position_str(d);
-      s += ":m=" + guarded([&] { return dtok(ids, prefix, d.master()); });
-      s += ":s=" + decl_set_str(ids, prefix, d);
+      s += ":m=" + (h.master ? dtok(ids, prefix, *h.master) : h.master_err);
+      s += ":s=" + held_set_str(ids, prefix, h);
       return s;
+   }
+
+   // all declarations of a list: every master() / decl_set() reference is obtained first, all are read afterwards
+   std::vector<std::string> decl_strs(const std::map<const ipr::Decl*, int>& ids, const char* prefix,
+                                      const std::vector<const ipr::Decl*>& ds, bool with_pos, const std::vector<Held>* pre = nullptr)
+   {
+      std::vector<Held> held;
+      if (pre != nullptr and pre->size() == ds.size()) held = *pre;
+      else for (auto d : ds) held.push_back(hold(*d));
+      std::vector<std::string> out;
+      for (std::size_t i = 0; i < ds.size(); ++i) out.push_back(decl_str(ids, prefix, *ds[i], with_pos, held[i]));
+      return out;
    }
 
    std::vector<std::string> lookup_names(bool base)
@@ -265,34 +329,55 @@ namespace {
 
    // L=<name-item>,...   item: N0!  (no overload set)   or   N0/P0>d0/P1>d3   (overload set and its non-empty selections)
    // with_sets: each selection is followed by '=' and the decl-set of the selected declaration.
+   // Three passes: every name is looked up (the Optional<Overload> answers are kept), then every overload set is asked for every
+   // type (the Optional<Decl> answers are kept), then -- with_sets -- every selected declaration for its decl-set; only then is
+   // anything printed.
    std::string lookups(const ipr::Scope& sc, const std::map<const ipr::Decl*, int>& ids, const char* prefix, bool base,
                        bool with_sets, bool& white_ok)
    {
-      std::vector<std::string> items;
-      for (auto& ntk : lookup_names(base)) {
-         const ipr::Name& n = name_for(ntk);
-         items.push_back(guarded([&] {
-            auto ov = sc[n];
-            if (not ov) return ntk + "!";
-            std::string s = ntk;
+      const auto ntks = lookup_names(base);
+      std::vector<std::pair<std::string, const ipr::Type*>> tys = cx.u.types;
+      if (cx.enm != nullptr) tys.push_back({ "ENUM", cx.enm });
+      struct Sel { Optional<ipr::Decl> d; Held h; };
+      struct Item { std::string err; Optional<ipr::Overload> ov; std::vector<Sel> sel; std::string sel_err; };
+      std::vector<Item> items(ntks.size());
+      for (std::size_t i = 0; i < ntks.size(); ++i) {
+         const ipr::Name& n = name_for(ntks[i]);
+         items[i].err = guarded([&] { items[i].ov = sc[n]; return std::string(); });
 #ifdef C07_WHITEBOX
-            if (auto o = dynamic_cast<const impl::Overload*>(&ov.get()))
+         if (items[i].ov)
+            if (auto o = dynamic_cast<const impl::Overload*>(&items[i].ov.get()))
                if (&o->name != &n) white_ok = false;
 #endif
-            std::vector<std::pair<std::string, const ipr::Type*>> tys = cx.u.types;
-            if (cx.enm != nullptr) tys.push_back({ "ENUM", cx.enm });
-            for (auto& p : tys) {
-               auto d = ov.get()[*p.second];
-               if (d) {
-                  s += '/' + p.first + '>' + dtok(ids, prefix, d.get());
-                  if (with_sets) s += '=' + decl_set_str(ids, prefix, d.get());
-               }
-            }
-            return s;
-         }));
+      }
+      for (auto& it : items) {
+         if (not it.err.empty() or not it.ov) continue;
+         it.sel_err = guarded([&] {
+            for (auto& p : tys) it.sel.push_back({ it.ov.get()[*p.second], { } });
+            return std::string();
+         });
+      }
+      if (with_sets)
+         for (auto& it : items)
+            for (auto& x : it.sel)
+               if (x.d) x.h = hold(x.d.get());
+      std::vector<std::string> out;
+      for (std::size_t i = 0; i < ntks.size(); ++i) {
+         auto& it = items[i];
+         if (not it.err.empty()) { out.push_back(it.err); continue; }
+         if (not it.ov) { out.push_back(ntks[i] + "!"); continue; }
+         if (not it.sel_err.empty()) { out.push_back(it.sel_err); continue; }
+         std::string s2 = ntks[i];
+         for (std::size_t j = 0; j < it.sel.size(); ++j) {
+            auto& x = it.sel[j];
+            if (not x.d) continue;
+            s2 += '/' + tys[j].first + '>' + dtok(ids, prefix, x.d.get());
+            if (with_sets) s2 += '=' + held_set_str(ids, prefix, x.h);
+         }
+         out.push_back(s2);
       }
       (void) white_ok;
-      return join(items, ',');
+      return join(out, ',');
    }
 
    std::string elems_str(const ipr::Scope& sc, const std::map<const ipr::Decl*, int>& ids, const char* prefix,
@@ -369,9 +454,7 @@ namespace {
          std::vector<const ipr::Decl*> elems;
          s = elems_str(sc, cx.did, "d", elems, ok) + " ; ";
          s += "L=" + lookups(sc, cx.did, "d", false, false, white_ok);
-         std::vector<std::string> ds;
-         for (auto d : elems) ds.push_back(decl_str(cx.did, "d", *d, false));
-         s += " ; D=" + join(ds, ',');
+         s += " ; D=" + join(decl_strs(cx.did, "d", elems, false), ',');
       }
       else
          s = "L=" + lookups(sc, cx.did, "d", false, true, white_ok);
@@ -402,7 +485,7 @@ namespace {
       if (cx.scope == nullptr or dtk.size() < 2) return "bad-op";
       std::size_t i = std::stoul(dtk.substr(1));
       if (i >= cx.decls.size()) return "bad-op";
-      return decl_str(cx.did, "d", *cx.decls[i], false);
+      return decl_str(cx.did, "d", *cx.decls[i], false, hold(*cx.decls[i]));
    }
 
 #ifdef C07_WHITEBOX
@@ -477,16 +560,15 @@ namespace {
    }
 
    // one homogeneous scope: {E=.. ; S=.. ; T=.. ; L=.. ; D=..}; `members` is the kind-specific member sequence
-   std::string hscope_str(const ipr::Scope& sc, const std::vector<const ipr::Decl*>& members, bool base, bool& ok)
+   std::string hscope_str(const ipr::Scope& sc, const std::vector<const ipr::Decl*>& members, bool base, bool& ok,
+                          const std::vector<Held>* pre = nullptr)
    {
       std::vector<const ipr::Decl*> elems;
       bool white_ok = true;
       std::string s = "{" + elems_str(sc, cx.hid, "h", elems, ok);
       if (elems != members) ok = false;
       s += " ; L=" + lookups(sc, cx.hid, "h", base, false, white_ok);
-      std::vector<std::string> ds;
-      for (auto d : elems) ds.push_back(decl_str(cx.hid, "h", *d, true));
-      return s + " ; D=" + join(ds, ',') + "}";
+      return s + " ; D=" + join(decl_strs(cx.hid, "h", elems, true, elems == members ? pre : nullptr), ',') + "}";
    }
 
    template<class T>
@@ -521,9 +603,14 @@ namespace {
       else {
          const ipr::Block& b = *cx.blk;
          std::vector<std::string> hs;
-         for (auto h : read_seq(b.handlers(), ok)) {
+         // the exception declarations of ALL handlers are asked first (each lives in a scope of its own)
+         auto handlers = read_seq(b.handlers(), ok);
+         std::vector<std::vector<Held>> pre;
+         for (auto h : handlers) pre.push_back({ hold(h->exception()) });
+         for (std::size_t i = 0; i < handlers.size(); ++i) {
+            auto h = handlers[i];
             std::vector<const ipr::Decl*> members { &h->exception() };
-            hs.push_back(hscope_str(h->body().region().enclosing().bindings(), members, false, ok));
+            hs.push_back(hscope_str(h->body().region().enclosing().bindings(), members, false, ok, &pre[i]));
          }
          s = join(hs, ' ');
          if (hs.empty()) s = "-";
@@ -543,7 +630,7 @@ int main()
       if (op.empty() or op[0] == '#' or op == "addr") continue;
       std::string out;
       try {
-         if (op == "lexicon") out = op_lexicon(a.empty() ? 0u : unsigned(std::stoul(a)));
+         if (op == "lexicon") out = op_lexicon(a.empty() ? 0u : unsigned(std::stoul(a)), b.empty() ? 8u : std::stoul(b));
          else if (op == "new") out = op_new();
          else if (op == "decl") out = op_decl(a, b, c);
          else if (op == "full") out = op_full(false);
